@@ -61,6 +61,10 @@ CORPUS = [
     ("1.5.7", "MAJOR.INC0.INC1", dict(pin_increments=True, major=True), None),
     ("1.2.3-rc.5", "MAJOR.MINOR.PATCH[-TAG[.INC0]]", dict(tag="final"), None),         # the tag moves to an alphabetically smaller value: still a change
     ("v2024.33-beta4", "vYYYY.BLD[-TAGNUM]", dict(), "2024-06-01"),
+    # an optional group that mixes parts which have a zero with parts which have none (INC1, BUILD, DD): written unless ALL its parts are zero
+    ("1.2.0.4", "MAJOR.MINOR[.PATCH.INC1]", dict(minor=True), None),
+    ("1.2.3-rc1.1001", "MAJOR.MINOR.PATCH[-TAGNUM.BUILD]", dict(tag="final"), None),
+    ("v2024.6.11-3", "vYYYY.MM[.DD-PATCH]", dict(), "2024-06-12"),
 ]
 RESET_INIT = {"major": 0, "minor": 0, "patch": 0, "num": 0, "inc0": 0, "inc1": 1}
 CAL_FIELDS = ["year_y", "year_g", "quarter", "month", "dom", "doy", "week_w", "week_u", "week_v"]
